@@ -20,6 +20,10 @@ PROPS = {
             {"mode": "nofault-R", "quick": {"runs": 1000}, "thorough": {"runs": 50000}},
             {"mode": "lockretry", "quick": {"runs": 1500}, "thorough": {"runs": 60000}},
             {"mode": "lockretry-R", "quick": {"runs": 1000}, "thorough": {"runs": 40000}},
+            # the shape family of C02 (stale locks naming an abandoned primary), judged by the C01 oracle: its no-crash
+            # positions keep the victim alive while another client meets its stale and its live locks
+            {"mode": "stalelock", "quick": {"runs": 33 * 20}, "thorough": {"runs": 33 * 1000}},
+            {"mode": "stalelock-R", "quick": {"runs": 33 * 15}, "thorough": {"runs": 33 * 1000}},
             {"mode": "directed", "quick": {"runs": 64}, "thorough": {"runs": 64}},
         ],
         "rule": ("each evaluation is one simulated run: 2-6 generated transaction programs (optimistic/pessimistic; get, batch-get, "
